@@ -1,6 +1,7 @@
 package pxw
 
 import (
+	"strings"
 	"fmt"
 	"os"
 	"testing"
@@ -41,4 +42,53 @@ func TestDebug(t *testing.T) {
 	for _, l := range w.Res.Log[:min(40, len(w.Res.Log))] {
 		fmt.Println(l)
 	}
+}
+
+func TestDebugReplay(t *testing.T) {
+	p := os.Getenv("VERIF_DEBUG_REPLAY")
+	if p == "" {
+		t.Skip()
+	}
+	rp, err := kernel.ReadReplay(p)
+	if err != nil {
+		t.Fatal(err)
+	}
+	DebugHook = func(pw *PgWorld, run *SessionRun, script []Stmt) {
+		fmt.Printf("stuck=%v clientErr=%q proxyErrs=%v\n", run.Stuck, run.ClientErr, run.ProxyErrs)
+		fmt.Printf("db statements: %q\n", pw.DB.Statements)
+		for i, r := range run.Results {
+			fmt.Printf("res %d %q: err=%q ready=%v rows=%q msgs=%v\n", i, script[i].SQL, r.Err, r.Ready, r.Rows, r.Messages)
+		}
+	}
+	res := map[string]kernel.Property{"C04": C04{}, "C05": C05{}}[rp.Plan.Prop].Run(t, rp.Plan, true)
+	for _, v := range res.Violations {
+		fmt.Println("VIOL", v.Class(), v.Detail)
+	}
+}
+
+func TestDebugCensor(t *testing.T) {
+	if os.Getenv("VERIF_DEBUG_CENSOR") == "" {
+		t.Skip()
+	}
+	Bubble(t, 1, func() {
+		w := kernel.NewWorld(&kernel.Plan{}, false)
+		for _, tm := range c05Templates[:5] {
+			for _, pat := range append(append([]string{}, tm.patterns...), c05KindPattern[tm.kind]) {
+				pat = strings.ReplaceAll(pat, "%%%%", "%%")
+				chain := []c05Handler{{Kind: "deny", Patterns: []c05Pat{{Text: pat}}}}
+				pw, err := NewPgWorld(w, kernel.NewRNG(1, 1), PgWorldConfig{SchemaYAML: schemaYAML([]colKind{{Name: "c1", Envelope: "acrablock"}}), CensorYAML: c05YAML(chain, false), Clients: []string{owner}})
+				if err != nil {
+					fmt.Printf("%-70s CONFIG ERROR %v\n", pat, err)
+					continue
+				}
+				var out []string
+				for v := 0; v <= 5; v++ {
+					q := c05Variant(fmt.Sprintf(tm.text, 4242), v)
+					out = append(out, fmt.Sprintf("v%d:%v", v, pw.Censor.HandleQuery(q) != nil))
+				}
+				fmt.Printf("%-70s blocked: %v\n", pat, out)
+				pw.Censor.ReleaseAll()
+			}
+		}
+	})
 }
